@@ -127,7 +127,7 @@ def render_cal(E, cal, opts=None):
     if not (opts.get("omit_defaults") and cal["order"] == 0):
         attrib["order"] = str(cal["order"])
     if not (opts.get("omit_defaults") and not cal["extrapolate"]):
-        attrib["extrapolate"] = "true" if cal["extrapolate"] else "false"
+        attrib["extrapolate"] = crit._b(cal["extrapolate"], opts)
     el = E("SplineCalibrator", attrib)
     pts = list(cal["points"])
     if opts.get("reverse_points"):
